@@ -138,6 +138,10 @@ def run_trace(tid, n, cls, mode, hidden_f, objs, rng, length, with_gaps, ops_wei
             choices += ["unreveal"] * ops_weights[1]
         if not reveal_only:
             choices += ["reset"] * ops_weights[2]
+            if expl:
+                choices += ["set", "set_many"]
+            if revealed:
+                choices += ["unset"]
         choices += ["compute"] * ops_weights[3]
         op = rng.choice(choices) if script is None else "compute"
         if since_compute >= 3 or step == length - 1 or (reveal_only and prev_op != "compute"):
@@ -159,6 +163,25 @@ def run_trace(tid, n, cls, mode, hidden_f, objs, rng, length, with_gaps, ops_wei
             apply_all(lambda g: g.unreveal_value(Coalition(c)))
             known.discard(c)
             ev["c"] = c
+            since_compute += 1
+        elif op == "set":
+            c = rng.choice(expl) if script is None else script[step]["c"]
+            apply_all(lambda g: g.set_value(hidden_f[c], Coalition(c)))
+            known.add(c)
+            ev["c"], ev["val"] = c, ctx.num(hidden_f[c])
+            since_compute += 1
+        elif op == "unset":
+            c = rng.choice(revealed) if script is None else script[step]["c"]
+            apply_all(lambda g: g.unset_value(Coalition(c)))
+            known.discard(c)
+            ev["c"] = c
+            since_compute += 1
+        elif op == "set_many":
+            cs = rng.sample(expl, rng.randint(1, max(1, min(3, len(expl))))) if script is None else list(script[step]["cs"])
+            if cs:
+                apply_all(lambda g: g.set_values(np.array([hidden_f[c] for c in cs]), [Coalition(c) for c in cs]))
+            known.update(cs)
+            ev["cs"], ev["vals"] = cs, [ctx.num(hidden_f[c]) for c in cs]
             since_compute += 1
         elif op == "reset":
             if script is None:
